@@ -731,13 +731,26 @@ size_t rtosc_print_arg_vals(const rtosc_arg_val_t *args, size_t n,
     size_t sep_len = strlen(opt->sep);
     char* last_sep = buffer - 1;
     STACKALLOC(rtosc_arg_val_t, args_converted, n); // only used for range conversion
+    const rtosc_arg_val_t* prev_range = NULL; // previous argument, if it was a range with delta
+    rtosc_arg_val_t prev_range_last;
 
     for(size_t i = 0; i < n;)
     {
         int32_t conv = rtosc_convert_to_range(args, n-i, args_converted, opt);
         const rtosc_arg_val_t* input = conv ? args_converted : args;
 
-        size_t tmp = rtosc_print_arg_val(input, buffer, bs, opt, &cols_used, (i == 0) ? NULL : (args-1));
+        // the value standing before this argument: for a range (with delta)
+        // it is the range's last value, not the last cell of the range
+        const rtosc_arg_val_t* prev = (i == 0) ? NULL : (args-1);
+        if(prev_range)
+            prev = rtosc_arg_val_range_arg(prev_range,
+                                           rtosc_av_rep_num(prev_range)-1,
+                                           &prev_range_last);
+        prev_range = (!conv && args->type == '-' &&
+                      rtosc_av_rep_has_delta(args) &&
+                      rtosc_av_rep_num(args) > 0) ? args : NULL;
+
+        size_t tmp = rtosc_print_arg_val(input, buffer, bs, opt, &cols_used, prev);
         wrt += tmp;
         buffer += tmp;
         bs -= tmp;
